@@ -282,6 +282,7 @@ def check(case):
             return
         # reconfiguration program
         cur_pop_n_ids = n_ids
+        fixed_names = set()
         for step, (op, arg) in enumerate(s['prog']):
             with case.clause('reconfigure'):
                 if op == 'set_n_ids':
@@ -297,15 +298,28 @@ def check(case):
                     names = m.get_parameter_names()
                     if len(names) >= 2 and len(set(names)) == len(names):
                         m.fix_parameters({names[arg % len(names)]: 0.6})
+                        if fixed_names is not None:
+                            fixed_names.add(names[arg % len(names)])
                 elif op == 'release':
                     if isinstance(m, chi.ReducedPopulationModel):
                         inner = m.get_population_model().get_parameter_names()
                         m.fix_parameters({nm: None for nm in inner})
+                        if fixed_names is not None:
+                            fixed_names = set()
                 elif op == 'set_population_parameters':
                     target = m.get_population_model() if isinstance(m, chi.ReducedPopulationModel) else m
                     if isinstance(target, chi.CovariatePopulationModel) and not isinstance(m, chi.ReducedPopulationModel):
                         base_n = target._population_model.n_parameters() // target.n_dim()
                         target.set_population_parameters([[arg % base_n, (arg // 7) % target.n_dim()]])
+                if op in ('set_parameter_names', 'set_dim_names', 'set_population_parameters'):
+                    fixed_names = None          # names changed: the by-name bookkeeping below no longer applies
+                if fixed_names and isinstance(m, chi.ReducedPopulationModel):
+                    inner = m.get_population_model().get_parameter_names()
+                    if len(set(inner)) == len(inner):
+                        still = [nm for nm in inner if nm not in fixed_names]
+                        case.equal(m.get_parameter_names(), still,
+                                   'free names = names of the wrapped model minus the parameters fixed by name (after %s)'
+                                   % op)
                 pop_invariants(case, m, cur_pop_n_ids, 'after %s' % ([o for o, _ in s['prog'][:step + 1]],))
             if case.fails:
                 return
